@@ -9,7 +9,8 @@ from . import common, zonescommon as zc
 from rtc import runner, native, pyzones
 from contracts import pyref
 
-CPP_PAIRS = ['ace_time::ExtendedZoneProcessor::compareTransitionToMatch(ace_time::extended::Transition const*, ace_time::extended::ZoneMatch const*)',
+CPP_PAIRS = ['ace_time::ExtendedZoneProcessor::createMatch(ace_time::extended::ZoneEraBroker, ace_time::extended::ZoneEraBroker, ace_time::extended::YearMonthTuple const&, ace_time::extended::YearMonthTuple const&)',
+             'ace_time::ExtendedZoneProcessor::compareTransitionToMatch(ace_time::extended::Transition const*, ace_time::extended::ZoneMatch const*)',
              'ace_time::ExtendedZoneProcessor::compareEraToYearMonth(ace_time::extended::ZoneEraBroker, signed char, unsigned char)',
              'ace_time::ExtendedZoneProcessor::getMostRecentPriorYear(signed char, signed char, signed char, signed char)',
              'ace_time::ExtendedZoneProcessor::compareTransitionToMatchFuzzy(ace_time::extended::Transition const*, ace_time::extended::ZoneMatch const*)',
@@ -18,13 +19,46 @@ CPP_PAIRS = ['ace_time::ExtendedZoneProcessor::compareTransitionToMatch(ace_time
              'ace_time::BasicZoneProcessor::calcStartDayOfMonth(short, unsigned char, unsigned char, signed char)']
 
 
+def replay_create_match(R, o):
+    """run the real ZoneSpecifier._create_match on the model's eras and interval; the C++ reading (proved for createMatch) keeps
+    the suffix of a tuple that is not replaced"""
+    if '_create_match#' not in o.name or not o.model:
+        return None
+    import subprocess, json
+    g = lambda k, d=0: int(o.model.get(k, d))
+    ch = lambda v: chr(v) if v in (119, 115, 117) else 'w'
+    code = r"""
+import sys, json
+sys.path.insert(0, %r)
+from types import SimpleNamespace as NS
+from zonedb.zone_specifier import ZoneSpecifier, YearMonthTuple
+prev = NS(untilYear=%d, untilMonth=%d, untilDay=%d, untilSeconds=%d, untilTimeSuffix=%r)
+era = NS(untilYear=%d, untilMonth=%d, untilDay=%d, untilSeconds=%d, untilTimeSuffix=%r)
+m = ZoneSpecifier._create_match(prev, era, YearMonthTuple(%d, %d), YearMonthTuple(%d, %d))
+print(json.dumps(dict(start=list(m.startDateTime), until=list(m.untilDateTime))))
+""" % (os.path.join(build.REPO, 'tools'), g('p_y'), g('p_m'), g('p_d'), g('p_s'), ch(g('p_f', 119)), g('e_y'), g('e_m'), g('e_d'), g('e_s'), ch(g('e_f', 119)),
+       g('s_y'), g('s_m'), g('u_y'), g('u_m'))
+    p = subprocess.run(['/venv/bin/python', '-c', code], capture_output=True, text=True)
+    if p.returncode:
+        return False, dict(error=p.stderr[-300:])
+    got = json.loads(p.stdout.strip().split('\n')[-1])
+    pu = [g('p_y'), g('p_m'), g('p_d'), g('p_s'), ch(g('p_f', 119))]
+    lower = [g('s_y'), g('s_m'), 1, 0, 'w']
+    want_start = lower if pu[:4] < lower[:4] else pu
+    eu = [g('e_y'), g('e_m'), g('e_d'), g('e_s'), ch(g('e_f', 119))]
+    upper = [g('u_y'), g('u_m'), 1, 0, 'w']
+    want_until = upper if upper[:4] < eu[:4] else eu
+    bad = got['start'] != want_start or got['until'] != want_until
+    return bad, dict(python=got, cpp_reading=dict(start=want_start, until=want_until), how='ZoneSpecifier._create_match(prev, era, start_ym, until_ym) under /venv/bin/python')
+
+
 def run(R):
     common.load_ir(R)
     obs = check.verify_functions(R, CPP_PAIRS)
     obs += common.avr_pass(R, CPP_PAIRS)
     from vc.pyvc import PyOutOfReach
     try:
-        pyobs = pyref.python_pair_obligations()
+        pyobs = pyref.python_pair_obligations() + pyref.create_match_obligations()
         from contracts import ruleday
         py2, tests, npaths = ruleday.python_obligations()
         pyobs += [(n, pc, g) for (n, pc, g) in py2 if not n.startswith('cover:') and 'calc_day_of_month' in n]
@@ -34,6 +68,7 @@ def run(R):
     R.functions['tools/zonedb/zone_specifier.py:{_get_most_recent_prior_year,_compare_transition_to_match_fuzzy,_compare_transition_to_match,_compare_era_to_year_month}; tools/tzdb/transformer.py:calc_day_of_month'] = dict(generated=len(pyobs), engine='pyvc')
     for name, pc, goal in pyobs:
         obs.append(symex.Obligation(name, 'post', name.split('#')[0], None, list(pc), goal, {'no_entry_state': True}))
+    R.custom_replay = replay_create_match
     check.discharge(R, obs, timeout=120)
     # ---- bounded: whole-object equality on every zonedbx zone decoded to the Python data model
     orc = zc.oracles(R)
